@@ -467,13 +467,15 @@ class Client(ClientLike):
         Args:
             msg_list (Iterable[int]): A list of numeric message IDs to subscribe to
         """
-        msg_list = list(msg_list)  # cast arbitrary iterable to list
-        for mt in msg_list:
+        requested = list(msg_list)  # cast arbitrary iterable to list
+        msg_list = []
+        for mt in requested:
             if mt in self.subscribed_types:
                 warn(
                     f"Message ID {mt} is already subscribed, ignored from subscription_context"
                 )
-                msg_list.remove(mt)
+            else:
+                msg_list.append(mt)
 
         self.subscribe(msg_list)
         yield
@@ -489,13 +491,15 @@ class Client(ClientLike):
             msg_list (Iterable[int]): A list of numeric message IDs to temporarily unsubscribe to
         """
 
-        msg_list = list(msg_list)  # cast arbitrary iterable to list
-        for mt in msg_list:
+        requested = list(msg_list)  # cast arbitrary iterable to list
+        msg_list = []
+        for mt in requested:
             if mt not in self.subscribed_types:
                 warn(
                     f"Message ID {mt} is not subscribed, ignored from paused_subscription_context"
                 )
-                msg_list.remove(mt)
+            else:
+                msg_list.append(mt)
 
         self.pause_subscription(msg_list)
         yield
